@@ -2,7 +2,7 @@
 (* Trace validation for C05 (direction B): a recorded trace of racing callers
    (start(g) / end(g, v) events ordered by a global atomic ticket taken before the call and
    after the return) is accepted iff some interleaving of the unlogged internal steps
-   Load / Add / RetLast of spec Seq explains every returned element. *)
+   Load / Add / Ret / RetLast of spec Seq explains every returned element. *)
 EXTENDS Seq
 CONSTANT TraceFile
 Trace == ndJsonDeserialize(TraceFile)
@@ -23,8 +23,9 @@ EvStart == /\ IsEv("start")
 
 \* silent steps of the implementation, re-using the actions of Seq
 SilentLoad(g) == phase[g] = "begun" /\ Load(g) /\ UNCHANGED <<l, phase, ret>>
+SilentAdd(g) == phase[g] = "begun" /\ Add(g) /\ UNCHANGED <<l, phase, ret>>
 SilentFinish(g) == /\ phase[g] = "begun"
-                   /\ (Add(g) \/ RetLast(g))
+                   /\ (Ret(g) \/ RetLast(g))
                    /\ phase' = [phase EXCEPT ![g] = "finished"]
                    /\ ret' = [ret EXCEPT ![g] = retd'[Len(retd')].idx]
                    /\ UNCHANGED l
@@ -40,7 +41,7 @@ EvReset == /\ IsEv("reset") /\ \A g \in G : phase[g] = "idle"
            /\ curNum' = 0 /\ retd' = <<>> /\ hist' = <<>>
            /\ l' = l + 1 /\ UNCHANGED <<pc, loc, done, started, phase, ret>>
 
-TNext == EvStart \/ EvEnd \/ EvReset \/ \E g \in G : SilentLoad(g) \/ SilentFinish(g)
+TNext == EvStart \/ EvEnd \/ EvReset \/ \E g \in G : SilentLoad(g) \/ SilentAdd(g) \/ SilentFinish(g)
 TSpec == TInit /\ [][TNext]_tvars
 
 HighWater == IF l > TLCGet(1) THEN TLCSet(1, l) ELSE TRUE
